@@ -5,7 +5,12 @@ cd /verif
 for d in seeded/*/; do
   id=$(basename $d); p=${id%%_*}
   extra=""
-  [ "$id" = "C02_m3" ] && extra="C07"
+  # changes that need a history of calls or another entry point are (also) the business of another property's check
+  case $id in
+    C02_m3|C02_m8|C15_m7|C18_m7) extra="C07";;
+    C08_m7) extra="C15";;
+    C05_m8) extra="C12 C14";;
+  esac
   tools/seedtest.sh /verif/seeded/$id/patch.diff $p $extra 2>&1 | grep "^seed=" | sed "s/^seed=patch.diff/$id/" | cut -c1-220
 done
 git -C /repo status --short | head -3
